@@ -14,6 +14,7 @@
 From Coq Require Import List NArith QArith Bool.
 Import ListNotations.
 From AgileV Require Import Evo.Heap Evo.Evo Evo.EvoProofs C02.Model C02.Proofs C02.ProofsFollow.
+From AgileV Require C03.Model C02.ProofsArch.
 Open Scope N_scope.
 
 (* MUTATION COHERENT (one individual) — for every well-formed registry, every store, every mutation kind
@@ -108,6 +109,41 @@ Theorem arch_same_before_same_after : forall (arch meth args : Type)
   (snd r <> None -> forall i, nth_error others i = Some pol -> nth_error (snd (fst r)) i = Some (fst (fst r))).
 Proof. exact (@arch_same_before_same_after). Qed.
 Print Assumptions arch_same_before_same_after.
+
+(* ... and the hypothesis [replayable] is a THEOREM for EvolvableMLP as modelled by property C03 (C03/Model.v [mlp_step]:
+   add_layer / remove_layer with their fall-back on add_node, add_node / remove_node with their hard limits): the method
+   and argument list a call resolves to — what architecture_mutate replays — reproduce the result on the same hidden sizes
+   for ANY other draws; in particular when add_layer / remove_layer fell back on add_node, whose randomly drawn layer
+   index and node count travel only through the returned arguments. *)
+Theorem mlp_methods_replayable : forall (c : C03.Model.mlp_cfg) (h : list Z) (m : C03.Model.mlp_meth) (r1 r2 : Z),
+  (0 < C03.Model.zlen h)%Z -> C02.ProofsArch.meth_ok m ->
+  let '(h', nm, ar) := C03.Model.mlp_step c h m r1 r2 in
+  exists m', C02.ProofsArch.mlp_resolved nm ar = Some m' /\
+             forall r1' r2', fst (fst (C03.Model.mlp_step c h m' r1' r2')) = h'.
+Proof. exact C02.ProofsArch.mlp_replay_lemma. Qed.
+Print Assumptions mlp_methods_replayable.
+
+(* architecture_mutate over MLP networks (arch_mutate instantiated with C03's model): every other evaluation network that had
+   the policy's hidden sizes has the policy's new hidden sizes, whatever it would have drawn itself. *)
+Theorem mlp_arch_follows_policy : forall (c : C03.Model.mlp_cfg) (k : C02.ProofsArch.mlp_call) (pol : list Z) (others : list (list Z)),
+  (0 < C03.Model.zlen pol)%Z -> C02.ProofsArch.meth_ok (C02.ProofsArch.c_meth k) ->
+  let r := arch_mutate (C02.ProofsArch.mlp_net_apply c) tt k pol others in
+  length (snd (fst r)) = length others /\
+  forall i, nth_error others i = Some pol -> nth_error (snd (fst r)) i = Some (fst (fst r)).
+Proof. exact C02.ProofsArch.mlp_arch_follow_lemma. Qed.
+Print Assumptions mlp_arch_follows_policy.
+
+(* "NONE" IS NOT THE IDENTITY — the model follows the code: also for the drawn mutation "None" every shared network is
+   re-created and every mutation hook runs.  For a bandit registry (hook init_params) the individual stays coherent but its
+   ext tensors (the learned confidence matrix sigma_inv) are re-initialised although it reports "None". *)
+Theorem none_mutation_not_identity :
+  exists s a label,
+    wf_registry (a_reg a) = true /\ Coherent a /\
+    let x' := mutate_agent MNone [] label (s, a) in
+    Coherent (snd x') /\
+    map (rd (fst x')) (blk (snd x') kExt) <> map (rd s) (blk a kExt).
+Proof. exact C02.ProofsArch.none_mutation_not_identity_lemma. Qed.
+Print Assumptions none_mutation_not_identity.
 
 (* SHARED NETWORKS FOLLOW — right after Mutations.mutation the architecture id of every shared/target network is the one of
    the evaluation network it shadows, whatever the individual looked like before (no coherence hypothesis). *)
